@@ -345,3 +345,21 @@ def ap_offset(mod, ap):
             return None
         off += hit[0][1]
     return off
+
+
+def is_decrement(f, e):
+    """atomic RMW that subtracts one: dec, add -1, sub 1 (whatever macro it was written with)"""
+    if e.rop == "dec":
+        return True
+    c = ir.const_of(f, e.val) if e.val is not None else None
+    if c is None:
+        return False
+    bits = e.bits or 64
+    return (e.rop in ("add", "xadd") and (c & ((1 << bits) - 1)) == (1 << bits) - 1) or (e.rop == "sub" and c == 1)
+
+
+def is_increment(f, e):
+    if e.rop == "inc":
+        return True
+    c = ir.const_of(f, e.val) if e.val is not None else None
+    return c is not None and ((e.rop in ("add", "xadd") and c == 1) or (e.rop == "sub" and c == -1))
